@@ -19,6 +19,9 @@ EXPLANATION = LEVEL_TEXT
 TRUSTED = ["harness/oracle_mdl.py (closed-form weighted least squares, exact Hessian, snapping rule, tree code length)",
            "the pipeline is run with the library of the staged copy and a Gaussian likelihood on synthetic data"]
 ASSUMPTIONS = ["hFaithful (numerical): sampled, tolerance 5e-3 in description length", "only trees linear after a per-parameter reparametrisation have an independent closed form here; a weak parameter that cannot be zeroed is coded with ln 2 (ESR's convention, the larger of the candidate values, so the oracle never demands more than the code promises)"]
+# tables whose committed version may stand in as a hand-written model when the translator cannot read the source;
+# value = the correspondence that then ties it to the code (common.prove / common.decide)
+FALLBACK = {'Rank': 'real combine_DL.main on random tables vs the Lean ranking model (the C06 correspondence, run here when the table cannot be regenerated)'}
 MODELLED = []
 
 TOL = 5e-3
@@ -135,6 +138,13 @@ def run(ctx):
     ctx.extra.pop("_models", None)
     ctx.extra["corr_obligations"] = 1
     ctx.extra["corr_discharged"] = int(not ctx.failures)
+    if (ctx.proof or {}).get("fallback", {}).get("Rank"):
+        # the ranking table could not be regenerated: tie the committed ranking model to today's combine_DL.main directly
+        from props import c06
+        nbad, _, _ = c06.explore(ctx, 4000, "c04fb", False)
+        ctx.extra["corr_obligations"] = 2
+        ctx.extra["corr_discharged"] += int(nbad == 0)
+        ctx.extra["rank_model_correspondence"] = dict(tables=4000, mismatching=nbad)
 
 
 def replay(ctx, data):
